@@ -7,7 +7,7 @@ from typing import Callable, Any, Union, Dict, Sequence, Optional
 import numpy as np
 from river.metrics.base import Metric
 
-from ixai.explainer.base import BaseIncrementalFeatureImportance, _get_mean_model_output
+from ixai.explainer.base import BaseIncrementalFeatureImportance, _get_mean_model_output, _loss_value
 from ixai.imputer import BaseImputer
 from ixai.storage.base import BaseStorage
 
@@ -129,11 +129,11 @@ class IncrementalSage(BaseIncrementalFeatureImportance):
             permutation_chain = [self.feature_names[idx]
                                  for idx in np.random.permutation(len(self.feature_names))]
             y_i_pred = self._model_function(x_i)
-            model_loss = self._loss_function(y_i, y_i_pred)
+            model_loss = _loss_value(self._loss_function(y_i, y_i_pred))
             marginal_prediction_tracker = copy.deepcopy(self._marginal_prediction_tracker)
             marginal_prediction_tracker.update(y_i_pred)
             marginal_prediction = marginal_prediction_tracker.get_normalized()
-            marginal_loss = self._loss_function(y_i, marginal_prediction)
+            marginal_loss = _loss_value(self._loss_function(y_i, marginal_prediction))
             sample_loss = marginal_loss
             features_not_in_s = list(self.feature_names)  # ordered: a set would iterate in string-hash order
             marginal_contributions = {}
@@ -145,7 +145,7 @@ class IncrementalSage(BaseIncrementalFeatureImportance):
                     n_samples=n_inner_samples
                 )
                 y = _get_mean_model_output(predictions)
-                feature_loss = self._loss_function(y_i, y)
+                feature_loss = _loss_value(self._loss_function(y_i, y))
                 marginal_contribution = sample_loss - feature_loss
                 sample_loss = feature_loss
                 marginal_contributions[feature] = marginal_contribution
